@@ -38,6 +38,7 @@ GEO = ["RRT", "RRT+is", "RRTConnect", "RRTConnect+is", "RRTstar", "InformedRRTst
        "EITstar", "EIRMstar", "SST", "RLRT", "BiRLRT"]
 CTL = ["control::RRT", "control::RRT+is", "control::SST", "control::EST", "control::KPIECE1", "control::PDST"]
 MLV = ["QRRT", "QRRTStar", "QMP", "QMPStar"]
+ROADMAP = ["PRM:construct", "PRMstar:construct", "SPARS:construct", "SPARStwo:construct"]
 # not deterministic by construction on this tree: observed (thorough tier, counted), never alarmed on
 EXCLUDED = {
     "PRM": "PRM::solve runs checkForSolution() in a second std::thread that polls every millisecond; when it "
@@ -116,7 +117,14 @@ def gen_seeding(r, K):
 
 
 def rand_op(r, k):
-    c = r.below(12)
+    c = r.below(15)
+    if c == 12:
+        return "sphere %d %d" % (k, r.choice([1, 2, 3, 4, 5, 7, 16, 64]))
+    if c == 13:
+        return "ball %d %d %s" % (k, r.choice([1, 2, 3, 4, 6, 11]), fb(r.choice([1.0, 1.5, 0.25, 1e-3, 40.0])))
+    if c == 14:
+        lo = r.choice([2147483647, 2147483646, 2147483000, -2147483648, 0])
+        return "uint %d %d 2147483647" % (k, lo)
     if c == 0:
         return "u01 %d" % k
     if c == 1:
@@ -158,7 +166,7 @@ def gen_reseed(r, impl_only=False):
     if ng % 2 == 0:
         hist.insert(r.below(len(hist) + 1), "g01 0")
     if impl_only:
-        hist.insert(r.below(len(hist) + 1), "sphere 0 %d" % r.choice([1, 2, 3, 7]))
+        hist.insert(r.below(len(hist) + 1), "sphere 0 %d" % r.choice([1, 2, 3, 7, 33]))
         hist.insert(r.below(len(hist) + 1), "ball 0 %d %s" % (r.choice([2, 3, 5]), fb(1.5)))
     if r.chance(1, 8):
         hist.append("g01n 0 %d" % r.choice([1, 3, 625]))     # still odd in total
@@ -197,6 +205,64 @@ def gen_streams(r):
         else:
             lines.append(rand_op(r, k))
     return seeds, lines
+
+
+def gen_phs(r):
+    """uniformProlateHyperspheroid / …Surface mixed with other draws and reseeds (pre-transform points filled in later)."""
+    s0 = rand_seed(r)
+    lines = ["newl %d" % s0]
+    for _ in range(r.range(4, 14)):
+        c = r.below(5)
+        if c == 0:
+            lines.append("phs 0 %d %s" % (r.choice([2, 3, 4, 6, 9]), fb(r.choice([1.0001, 1.5, 2.0, 7.25]))))
+        elif c == 1:
+            lines.append("phss 0 %d %s" % (r.choice([2, 3, 4, 5, 8]), fb(r.choice([1.01, 1.5, 3.0]))))
+        elif c == 2:
+            lines.append("reseed 0 %d" % rand_seed(r))
+        else:
+            lines.append(rand_op(r, 0))
+    return [s0], lines
+
+
+def fill_pre(ck, body, clock):
+    """two-pass: the model says which unit-ball / sphere point each phs call hands to ProlateHyperspheroid::transform;
+    the harness then confirms (by printing the same line) that its real output is transform() of exactly that point."""
+    mod, rc, err = ck.run_bin(ck.driver(DRIVER), ["rng clock=%d" % clock] + [l + " 0" if l.split()[0] in ("phs", "phss") else l for l in body])
+    out = []
+    for l, m in zip(body, mod or []):
+        if l.split()[0] in ("phs", "phss") and m.startswith("pre "):
+            out.append(l + " " + m[4:])
+        else:
+            out.append(l)
+    return out
+
+
+def gen_copy(r):
+    """copies of an RNG (implicit copy constructor): plain draws of the copy continue the original's stream from the
+    copy point; the sphere-based routines of a copy are where the as-coded sharing of SphericalData shows."""
+    s0, s = rand_seed(r), rand_seed(r)
+    lines = ["newl %d" % s0] + [rand_op(r, 0) for _ in range(r.below(6))]
+    lines += ["copy 0"]
+    pairs = []
+    # (a) copy vs original: same plain stream
+    for op in ["u01 0", "g01 0", "uint 0 0 99", "quat 0"]:
+        t = op.split()
+        t1 = list(t)
+        t1[1] = "1"
+        pairs.append((len(lines), len(lines) + 1))
+        lines += [" ".join(t), " ".join(t1)]
+    # (b) reseed the copy, compare with a fresh generator (index 2) — sphere routines included
+    lines += ["reseed 1 %d" % s, "newl %d" % s]
+    cls = []
+    for op in ["g01", "u01", "sphere", "u01", "ball", "u01"]:
+        a = {"sphere": "sphere 1 %d" % r.choice([2, 3, 5]), "ball": "ball 1 3 %s" % fb(1.0)}.get(op, op + " 1")
+        t = a.split()
+        t[1] = "2"
+        pairs.append((len(lines), len(lines) + 1))
+        cls.append(op)
+        lines += [a, " ".join(t)]
+    lines += ["u01 0"]
+    return [s0, s], lines, pairs
 
 
 MALFORMED = ["setseed", "setseed -1", "setseed 18446744073709551616", "setseed x", "new 1", "newl", "newl -3",
@@ -244,6 +310,15 @@ def oracle_rng(lines, out, pairs=()):
             else:
                 if not o.startswith("msg=warn-zero-using-one"):
                     return (i, "setSeed(0) in a fresh process printed %r" % o)
+        if t[0] == "uint" and len(t) == 4 and o.lstrip("-").isdigit() and t[2].lstrip("-").isdigit() and t[3].lstrip("-").isdigit():
+            if not (int(t[2]) <= int(o) <= int(t[3])):
+                return (i, "uniformInt(%s, %s) returned %s, outside the range" % (t[2], t[3], o))
+        if t[0] in ("sphere", "ball") and len(t) >= 3 and o and o[0].isdigit():
+            vs = [core.bits2f(x) for x in o.split()]
+            n2 = sum(v * v for v in vs)
+            rad = core.bits2f(t[3]) if t[0] == "ball" else 1.0
+            if (t[0] == "sphere" and abs(n2 - 1.0) > 1e-9) or (t[0] == "ball" and n2 > rad * rad * (1 + 1e-9)):
+                return (i, "%s returned a point of norm^2 %r" % (ln, n2))
         if t[0] == "getseed" and len(t) == 1 and last_set is not None and o != "first=%d" % last_set:
             return (i, "getSeed() reports %r after setSeed(%d)" % (o, last_set))
     for a, b in pairs:
@@ -276,8 +351,10 @@ def variant_env(v):
 
 
 def plan_line(job, trace=False):
-    pl, env, seed, budget = job
-    return "run planner=%s env=%s seed=%d budget=%d%s" % (pl, env, seed, budget, " trace=1" if trace else "")
+    pl, env, seed, budget = job[:4]
+    opts = job[4] if len(job) > 4 else ""
+    return "run planner=%s env=%s seed=%d budget=%d%s%s" % (pl, env, seed, budget, " " + opts if opts else "",
+                                                            " trace=1" if trace else "")
 
 
 def run_plan(ck, binary, job, variant, trace=False):
@@ -323,7 +400,28 @@ def planner_jobs(ck, tier):
                 jobs.append((pl, "ctlz", s, b))
             for pl in MLV:
                 jobs.append((pl, "ml3", s, b))
-    return sorted(set(jobs))
+            # the roadmap planners through their single-threaded entry point (solve() itself starts a second thread)
+            for pl in ROADMAP:
+                for e in ("box2", "se2", "cz2"):
+                    jobs.append((pl, e, s, b))
+        jobs.append(("SPARSdb:addpath", "box2", s, 5000))
+    # histories and non-default configurations (lenses a, e): every planner, one or two seeds, middle budgets
+    hseeds = seeds[:1] if tier == "quick" else seeds[:3]
+    for s in hseeds:
+        for opts, b in (("hist=scs", 500), ("hist=ss", 400), ("ptc=iter", 120), ("ptc=iter", 17), ("starts=2", 700),
+                        ("params=alt", 700), ("starts=2 params=alt hist=scs", 500)):
+            for pl in GEO + ROADMAP:
+                if pl in ROADMAP and ("ptc=iter" in opts):
+                    continue
+                for e in (["box2", "cz2"] if tier == "quick" else ["box2", "box3", "se2", "cz2"]):
+                    jobs.append((pl, e, s, min(b, 400) if pl in ("LazyPRM", "LazyPRMstar") else b, opts))
+            for pl in CTL:
+                jobs.append((pl, "ctlz", s, b, opts))
+                jobs.append((pl, "ctl2", s, b, opts))
+            if "starts=2" not in opts:
+                for pl in MLV:
+                    jobs.append((pl, "ml3", s, b, opts))
+    return sorted(set(jobs), key=lambda j: (j[0], j[1], j[2], j[3], j[4] if len(j) > 4 else ""))
 
 
 def first_trace_diff(a, b):
@@ -345,7 +443,9 @@ def judge_planner_pair(ck, plain, job, ra, rb, excluded=False):
     res = ra["result"]
     ev = field(res, "evals")
     nontrivial = ev is not None and int(ev) >= 100
-    ck.case(("plan",) + job, nontrivial)
+    ck.case(("plan",) + tuple(job), nontrivial)
+    if len(job) > 4 and job[4]:
+        ck.count("planner-option:" + job[4])
     ck.count("planner-pairs")
     ck.count("planner-kind:" + ("control" if pl.startswith("control::") else "multilevel" if pl in MLV else "geometric"))
     ck.count("planner-env:" + job[1])
@@ -507,8 +607,22 @@ def parse_pairs(lines):
     return pairs
 
 
+def copies_rebind():
+    """fact read off the tree under test: does RNG declare its own copy constructor (the fix proposed for F200)?  The
+    model then gives copies a SphericalData of their own; otherwise it follows the implicit copy as coded."""
+    try:
+        src = open(os.path.join(core.REPO, "src", "ompl", "util", "RandomNumbers.h")).read()
+    except OSError:
+        return False
+    return "RNG(const RNG &" in src or "RNG(const RNG&" in src
+
+
+def rng_header(clock):
+    return "rng clock=%d%s" % (clock, " copies=rebind" if copies_rebind() else "")
+
+
 def run_rng(ck, hbin, body, clock, variant=0, model=True):
-    script = ["rng clock=%d" % clock] + body
+    script = [rng_header(clock)] + body
     impl, rc, err = ck.run_bin(hbin, script, env=variant_env(variant))
     impl = impl or []
     mod = None
@@ -519,7 +633,7 @@ def run_rng(ck, hbin, body, clock, variant=0, model=True):
     return script, impl, rc, err, mod
 
 
-def judge_rng(ck, hbin, body, seeds, tag, pairs=(), model=True, two_proc=False, r=None):
+def judge_rng(ck, hbin, body, seeds, tag, pairs=(), model=True, two_proc=False, r=None, copy_script=False):
     r = r or ck.rng.fork("clock-%s-%d" % (tag, ck.traces_validated))
     clock = model_clock(r, set(seeds))
     script, impl, rc, err, mod = run_rng(ck, hbin, body, clock, 0, model)
@@ -546,6 +660,17 @@ def judge_rng(ck, hbin, body, seeds, tag, pairs=(), model=True, two_proc=False, 
         if d2 is not None:
             fail = (d2, "two processes with the same seed disagree: %r vs %r (%s)"
                     % (impl[d2] if d2 < len(impl) else None, impl2[d2] if d2 < len(impl2) else None, body[d2] if d2 < len(body) else ""))
+    if fail is not None and copy_script:
+        # the model follows the code as coded (a copy's SphericalData stays bound to the original's generator), so it
+        # predicts the wrong value exactly; the known finding is matched only when the code prints that very value
+        op = body[fail[0]].split()[0] if fail[0] < len(body) else "?"
+        rec = {"engine": "rng", "kind": "rng-oracle",
+               "input_class": "copied-rng-sphere-after-reseed" if op in ("sphere", "ball", "phs", "phss") else "copied-rng-other",
+               "as_coded": impl == mod}
+        if ck.report(rec, script=script, expected=mod, observed=impl, engine="rng"):
+            ck.log("property failure (copied RNG): %s" % fail[1])
+            return False
+        return True
     if fail is not None:
         # shrink in units that keep a (generator 0, generator 1) pair of lines together, otherwise the two
         # generators get out of step and the shrunk script fails for the wrong reason
@@ -629,7 +754,7 @@ def run(ck):
                "the run made >= 100 evaluations")
     ck.trusted += ["harness/rng.cpp (box-obstacle validity checker, counting termination condition, FNV hashes of "
                    "status/path/planner data/query transcript)",
-                   "model abstraction: rejection loops bounded by a fuel of 4096 rounds; boost::uniform_on_sphere not modelled",
+                   "model abstraction: rejection loops bounded by a fuel of 4096 rounds; ProlateHyperspheroid::transform (Eigen) not modelled",
                    "glibc MALLOC_PERTURB_ and ASLR as the means to vary what an undisciplined planner could observe"]
     ck.assumptions += ["this toolchain: g++ 12 / libstdc++ / glibc x86-64 (std::uint_fast32_t is 64 bit); the bit patterns "
                        "are not claimed for other standard libraries",
@@ -656,9 +781,10 @@ def run(ck):
     tasks = []
     for name, lines in corpus():
         body = lines[1:] if lines and lines[0].startswith("rng ") else lines
-        impl_only = any(l.split()[0] in ("sphere", "ball") for l in body)
+        impl_only = False
         seeds = [int(t) for l in body for t in l.split()[1:] if t.isdigit()]
         tasks.append(dict(body=body, seeds=seeds, tag="corpus", pairs=parse_pairs(body), model=not impl_only,
+                          copy_script=any(l.split()[0] == "copy" for l in body),
                           two_proc=any(l.startswith("setseed") for l in body)))
     n_seed, n_reseed, n_stream, n_adv, K = (120, 250, 100, 30, 50) if quick else (300, 1000, 400, 100, 50)
     for i in range(n_seed):
@@ -670,10 +796,16 @@ def run(ck):
                           seeds=[fixed], tag="seeding", two_proc=True))
     for i in range(n_reseed):
         r = ck.rng.fork("reseed%d" % i)
-        impl_only = i % 5 == 4
-        seeds, body, pairs = gen_reseed(r, impl_only)
-        tasks.append(dict(body=body, seeds=seeds, tag="reseed-sphere(impl only)" if impl_only else "reseed", pairs=pairs,
-                          model=not impl_only))
+        sph = i % 3 == 2          # extra sphere/ball calls, high dimension before low, around the reseed
+        seeds, body, pairs = gen_reseed(r, sph)
+        tasks.append(dict(body=body, seeds=seeds, tag="reseed-sphere" if sph else "reseed", pairs=pairs))
+    for i in range(n_reseed // 6):
+        seeds, body = gen_phs(ck.rng.fork("phs%d" % i))
+        tasks.append(dict(body=fill_pre(ck, body, 1 << 50) if ck.lean_ok else body, seeds=seeds, tag="phs"))
+    for i in range(n_reseed // 10):
+        seeds, body, pairs = gen_copy(ck.rng.fork("copy%d" % i))
+        tasks.append(dict(body=body, seeds=seeds, tag="copy", pairs=pairs, copy_script=True))
+    tasks.append(dict(body=["boosttables"], seeds=[], tag="corpus"))
     for i in range(n_stream):
         seeds, body = gen_streams(ck.rng.fork("stream%d" % i))
         tasks.append(dict(body=body, seeds=seeds, tag="streams"))
@@ -704,7 +836,7 @@ def run(ck):
     def warm(t):
         r = core.SplitMix64(t["r"].s)
         clock = model_clock(r, set(t["seeds"]))
-        script = ["rng clock=%d" % clock] + t["body"]
+        script = [rng_header(clock)] + t["body"]
         cached_run_bin(hbin, script, env=variant_env(0))
         if t.get("model", True):
             cached_run_bin(ck.driver(DRIVER), script)
@@ -720,7 +852,7 @@ def run(ck):
                 if bad >= 3:
                     break
                 ok = judge_rng(ck, hbin, t["body"], t["seeds"], t["tag"], t.get("pairs", ()), t.get("model", True),
-                               t.get("two_proc", False), r=core.SplitMix64(t["r"].s))
+                               t.get("two_proc", False), r=core.SplitMix64(t["r"].s), copy_script=t.get("copy_script", False))
                 bad += 0 if ok else 1
         finally:
             ck.run_bin = orig_run_bin
@@ -783,7 +915,8 @@ def replay(ck, data):
     if script and script[0] == "plan":
         plain = ck.build_harness("rng_plain", ["rng.cpp"], link_ompl=True, sanitize="", opt="-O1")
         t = dict(kv.split("=", 1) for kv in script[1].split()[1:])
-        job = (t["planner"], t["env"], int(t["seed"]), int(t["budget"]))
+        opts = " ".join("%s=%s" % kv for kv in t.items() if kv[0] not in ("planner", "env", "seed", "budget", "trace"))
+        job = (t["planner"], t["env"], int(t["seed"]), int(t["budget"]), opts)
         a = run_plan(ck, plain, job, 0, trace=True)
         b = run_plan(ck, plain, job, 1, trace=True)
         print(plan_line(job))
@@ -820,8 +953,8 @@ def replay(ck, data):
     body = script[1:]
     impl, rc, err = ck.run_bin(hbin, script)
     impl = impl or []
-    impl_only = any(l.split()[0] in ("sphere", "ball") for l in body)
-    mod = [] if impl_only else ck.run_bin(ck.driver(DRIVER), script)[0]
+    impl_only = False
+    mod = ck.run_bin(ck.driver(DRIVER), script)[0]
     for i, ln in enumerate(body):
         print("%-46s impl: %s" % (ln[:46], (impl[i] if i < len(impl) else "<missing>")[:100]))
         if not impl_only and i < len(mod) and (i >= len(impl) or impl[i] != mod[i]):
@@ -849,19 +982,28 @@ MANIFEST = {
     "category": "proof",
     "design_ref": "DESIGN.md 2.20",
     "text": "Lean 4 theorems over a bit-exact executable model of OMPL's seed generator (ranlux24_base incl. libstdc++'s "
-            "seeding LCG, uniform_int_distribution(1,1e9) up/down-scaling) and of ompl::RNG (mt19937, generate_canonical, "
-            "polar normal distribution with its saved value): setSeed erases the clock, the i-th local seed is a function of "
-            "(seed, i), seeds lie in [1,1e9], the error/zero-seed paths as coded, setLocalSeed makes a generator "
-            "indistinguishable from a fresh one for every history, and the oracle-machine lemma (a planner's transcript and "
-            "output are a function of the answers to the questions it asks). Tied to the code by bit-for-bit differential "
-            "runs of the real RNG against the compiled model; planner determinism itself is observed: every single-threaded "
-            "planner that can be constructed generically is run in two separate processes (ASLR, shifted stack, different "
-            "heap fill) under an evaluation-counting termination condition and must return identical status, path, planner "
-            "data and query transcript.",
-    "note": "Trusted: Lean kernel, the three standard axioms, the hand-written model outside the explored scripts, the harness. "
-            "Bit patterns are for this toolchain (g++ 12/libstdc++/glibc). Planners are observed, not proved; PRM/PRMstar/SPARS/"
-            "SPARStwo/pRRT/pSBL/CForest/AnytimePathShortening use threads and are excluded; planners needing special problem "
-            "classes are not constructed (see notes/C20.md).",
+            "seeding LCG, uniform_int_distribution(1,1e9) up/down-scaling) and of every routine of ompl::RNG (mt19937, "
+            "generate_canonical, polar normal distribution with its saved value, uniformInt in its fixed clamp-before-cast form, "
+            "halfNormal*, quaternion, eulerRPY, and the boost 1.83 part: uniform_01, the normal/exponential ziggurats with their "
+            "tables, uniform_on_sphere for every dimension, uniformInBall, the ball/sphere point handed to the PHS transform, "
+            "copies as coded): setSeed erases the clock, the i-th local seed is a function of (seed, i), seeds lie in [1,1e9], "
+            "the error/zero-seed paths as coded, setLocalSeed makes a generator indistinguishable from a fresh one for every "
+            "history of all these routines, a copy's sphere routines ignore the copy's own seed (finding F200), the "
+            "oracle-machine lemma (a planner's transcript and output are a function of the answers to the questions it asks) "
+            "and its converse witness (an output component nobody wrote depends on garbage). Tied to the code by bit-for-bit "
+            "differential runs of the real RNG against the compiled model (PHS outputs are confirmed to be transform() of the "
+            "model's point). Sampler level: every shipped sampler's output is independent of the output state's old content. "
+            "Planner determinism is observed: every single-threaded planner that can be constructed generically (geometric, "
+            "control, multilevel, the roadmap planners through constructRoadmap, Thunder's SPARSdb::addPathToRoadmap) is run in "
+            "two separate processes (ASLR, shifted stack, different heap fill and layout, different fresh-state filler) under an "
+            "evaluation-counting condition or ompl's IterationTerminationCondition, also over solve/clear/solve and solve/solve "
+            "histories, two starts and goals, non-default parameters, and must return identical status, path, planner data and "
+            "query transcript. Every other source of randomness in the library is tabled in notes/C20.md.",
+    "note": "Trusted: Lean kernel, the three standard axioms, the hand-written model outside the explored scripts, the harness, "
+            "ProlateHyperspheroid::transform (C15). Bit patterns are for this toolchain (g++ 12/libstdc++/glibc, boost 1.83; the "
+            "ziggurat tables are hashed on both sides). Planners are observed, not proved; solve() of PRM/PRMstar/SPARS/SPARStwo "
+            "and pRRT/pSBL/CForest/AnytimePathShortening use threads and are excluded; planners needing special problem "
+            "classes are not constructed (see notes/C20.md). Known findings: F200 (copied RNG), F201 (SPARSdb random_device).",
     "technique": "Lean 4 proof (state-machine equalities, bisimulation for the stale saved value, induction over oracle "
                  "computations) + bit-exact differential correspondence + two-process differential runs of planners",
 }
